@@ -187,6 +187,56 @@ func RandStyle(rng *rand.Rand, rich, allowNone bool) tcell.Style {
 	return remember(st, n)
 }
 
+// build makes the Style an intent describes, through the builder methods.
+func build(n intent) tcell.Style {
+	st := tcell.StyleDefault.Foreground(n.fg).Background(n.bg).Attributes(tcell.AttrMask(n.at &^ 8))
+	if n.us != 0 {
+		st = st.Underline(tcell.UnderlineStyle(n.us))
+	}
+	if n.uc != tcell.ColorDefault {
+		st = st.Underline(n.uc)
+	}
+	if n.url != "" {
+		st = st.Url(n.url)
+	}
+	if n.id != "" {
+		st = st.UrlId(n.id[3:])
+	}
+	return remember(st, n)
+}
+
+// StyleVariants returns a style with every component set and styles that differ from it in exactly one component
+// (foreground, background, one attribute, underline style, underline colour, URL, URL id), in random order:
+// drawn into adjacent cells they exercise every comparison a style cache makes.
+func StyleVariants(rng *rand.Rand) []tcell.Style {
+	base := intent{fg: tcell.PaletteColor(2), bg: tcell.PaletteColor(4), uc: tcell.PaletteColor(1), at: 1 | 8, us: 1, url: "x:y", id: "id=1"}
+	if rng.Intn(2) == 0 {
+		base.fg, base.uc = tcell.NewRGBColor(10, 200, 30), tcell.NewRGBColor(250, 0, 120)
+	}
+	vs := []intent{base}
+	mod := func(f func(*intent)) {
+		n := base
+		f(&n)
+		vs = append(vs, n)
+	}
+	mod(func(n *intent) { n.fg = tcell.PaletteColor(3) })
+	mod(func(n *intent) { n.bg = tcell.PaletteColor(5) })
+	mod(func(n *intent) { n.at |= 32 })
+	mod(func(n *intent) { n.at &^= 1 })
+	mod(func(n *intent) { n.us = 3 })
+	mod(func(n *intent) { n.uc = tcell.PaletteColor(6) })
+	mod(func(n *intent) { n.uc = tcell.ColorDefault })
+	mod(func(n *intent) { n.url = "x:z" })
+	mod(func(n *intent) { n.id = "id=2" })
+	mod(func(n *intent) { n.url, n.id = "", "" })
+	rng.Shuffle(len(vs), func(i, j int) { vs[i], vs[j] = vs[j], vs[i] })
+	out := make([]tcell.Style, len(vs))
+	for i, n := range vs {
+		out[i] = build(n)
+	}
+	return out
+}
+
 // ColorFrom decodes <<kind, value>>.
 func ColorFrom(kv []interface{}) tcell.Color {
 	k := int(kv[0].(float64))
